@@ -294,6 +294,11 @@ void start(const std::vector<int>& prefix, int maxSteps) {
 }
 void stop() { g_active = false; }
 
+int choose(int n, const char*) {
+  if (!g_active || t_self < 0 || n <= 1) return 0;
+  return nextChoice(n, 2);
+}
+
 void yield(const char* label) {
   if (!g_active || t_self < 0) return;
   point(OP_STEP, label);
@@ -604,6 +609,19 @@ FILE* fopen(const char* path, const char* mode) {
   REAL(f, fopen_fn, "fopen");
   if (g_active && t_self >= 0) point(OP_STEP, "fopen");
   return f(path, mode);
+}
+// directory scans and arming an inotify watch are visible steps (ordering of "scan" vs "watch" matters to the drop-in service)
+typedef void* (*opendir_fn)(const char*);
+void* opendir(const char* path) {
+  REAL(f, opendir_fn, "opendir");
+  if (g_active && t_self >= 0) point(OP_STEP, "opendir");
+  return f(path);
+}
+typedef int (*inotify_add_watch_fn)(int, const char*, uint32_t);
+int inotify_add_watch(int fd, const char* path, uint32_t mask) {
+  REAL(f, inotify_add_watch_fn, "inotify_add_watch");
+  if (g_active && t_self >= 0) point(OP_STEP, "inotify_add_watch");
+  return f(fd, path, mask);
 }
 typedef int (*close_fn)(int);
 int close(int fd) {
